@@ -1,5 +1,8 @@
 pub mod c01;
 pub mod c04;
+pub mod c06;
+pub mod c08;
+pub mod c10;
 pub mod c12;
 pub mod c13;
 pub mod c14;
@@ -7,5 +10,14 @@ pub mod c14;
 use cvx_core::engine::Check;
 
 pub fn registry() -> Vec<&'static dyn Check> {
-    vec![&c01::C01, &c04::C04, &c12::C12, &c13::C13, &c14::C14]
+    vec![&c01::C01, &c04::C04, &c06::C06, &c08::C08, &c10::C10, &c12::C12, &c13::C13, &c14::C14]
+}
+
+/// program families of a check (debugging aid)
+pub fn families_of(id: &str, tier: cvx_core::engine::Tier) -> &'static Vec<Box<dyn cvx_core::gen_basic::Family>> {
+    match id {
+        "C06" => c06::families(tier),
+        "C08" => c08::families(tier),
+        _ => c01::families(tier),
+    }
 }
